@@ -107,16 +107,22 @@ Example C13_isolation_nonvacuous :
     [None; None; None; Some (1, Some 5); Some (0, Some 6); Some (2, None); Some (0, Some 5)].
 Proof. split; [reflexivity|]. split; [left; reflexivity|]. vm_compute. reflexivity. Qed.
 
-(* has_keys holds for real dialect namespaces; merge picks the user's value / the format's *)
+(* has_keys holds for real dialect namespaces (every attribute of class Dialect is inherited);
+   merge picks the user's value where set, the format's otherwise.  Stated per key and over
+   whatever key tuple the source has on this run. *)
 Example C13_merge_nonvacuous :
-  let fmt := [("serialize_by_alias", KMissing); ("namedtuple_as_dict", KMissing); ("omit_none", KBool true);
-              ("omit_default", KMissing); ("no_copy_collections", KTuple [KObj 1; KObj 2])] in
-  let usr := [("serialize_by_alias", KBool true); ("namedtuple_as_dict", KMissing); ("omit_none", KMissing);
-              ("omit_default", KBool false); ("no_copy_collections", KMissing)] in
-  merge_options (KNs fmt) (KNs usr) (KNs []) =
-    Ok (KNs [("serialize_by_alias", KBool true); ("namedtuple_as_dict", KMissing); ("omit_none", KBool true);
-             ("omit_default", KBool false); ("no_copy_collections", KTuple [KObj 1; KObj 2])]).
-Proof. vm_compute. reflexivity. Qed.
+  let fmt := ns_set (ns_set blank_dialect "omit_none" (KBool true)) "no_copy_collections" (KTuple [KObj 1; KObj 2]) in
+  let usr := ns_set (ns_set blank_dialect "serialize_by_alias" (KBool true)) "omit_default" (KBool false) in
+  has_keys merge_loop_keys fmt /\ has_keys merge_loop_keys usr /\
+  exists r, merge_options (KNs fmt) (KNs usr) (KNs []) = Ok (KNs r) /\
+    option_of r "serialize_by_alias" = KBool true /\ option_of r "namedtuple_as_dict" = KMissing /\
+    option_of r "omit_none" = KBool true /\ option_of r "omit_default" = KBool false /\
+    option_of r "no_copy_collections" = KTuple [KObj 1; KObj 2].
+Proof.
+  cbv zeta. split; [apply has_keys_dec; vm_compute; reflexivity|].
+  split; [apply has_keys_dec; vm_compute; reflexivity|].
+  eexists. split; [vm_compute; reflexivity|]. vm_compute. repeat split.
+Qed.
 
 Example C13_twin_nonvacuous :
   flag_of (mk_klass (KNs []) KNone false false) "omit_none" = false /\
